@@ -78,6 +78,9 @@ TEMPLATES = [
     {"type": "object", "title": "foo_1", "properties": {"p": {"type": "object", "title": "Foo"}, "q": {"type": "object", "title": "foo", "required": ["z"]}}},
     {"type": ["object"], "title": "Single", "default": {}, "patternProperties": {"^x": {"type": "object", "title": "single"}}},
     {"oneOf": [{"type": "object", "title": "A", "properties": {"k": {"const": True}}}, {"type": "object", "title": "A", "properties": {"k": {"const": 1}}}], "not": {"required": ["zz"]}},
+    # recorded finding K24: an allOf member (or the keywords next to a composition) that differs from Element() but serializes to {}
+    {"allOf": [{"required": []}, {"type": "string"}]},
+    {"properties": {}, "anyOf": [{"type": "integer"}, {"type": "null"}]},
     # recorded finding K23: a composition collapsing to Nothing() with a default
     {"type": "object", "title": "T", "properties": {"p": {"oneOf": [False], "default": 2}, "q": {"allOf": [{}, False], "default": 10}}},
 ]
@@ -121,6 +124,48 @@ def nothing_with_default(roots):
                     except Exception:  # noqa
                         pass
     return False
+
+
+def empty_allof_member(j):
+    """finding predicate K24: some allOf list of the document has the empty schema {} as a member.  The parser never keeps an
+    Element() there (it drops members equal to Element()), so this member is an element that differs from Element() and yet
+    serializes to {} : Element(required=[]) or Element(properties={}) (the serializer deletes empty required / properties)."""
+    if isinstance(j, dict):
+        a = j.get("allOf")
+        if isinstance(a, list) and any(isinstance(m, dict) and not m for m in a):
+            return True
+        return any(empty_allof_member(v) for v in j.values())
+    if isinstance(j, list):
+        return any(empty_allof_member(v) for v in j)
+    return False
+
+
+def diff_chain(a, b, chain=()):
+    """the nodes of `a` from the root down to the innermost container in which first_diff(a, b) lies"""
+    chain = chain + (a,)
+    if isinstance(a, dict) and isinstance(b, dict):
+        for k in list(a) + [k for k in b if k not in a]:
+            if k not in a or k not in b:
+                return chain
+            if first_diff(a[k], b[k]):
+                return diff_chain(a[k], b[k], chain)
+        return chain
+    if isinstance(a, list) and isinstance(b, list) and len(a) == len(b):
+        for x, y in zip(a, b):
+            if first_diff(x, y):
+                return diff_chain(x, y, chain)
+    return chain
+
+
+def trip_finding(J, Jnext):
+    """which recorded finding, if any, explains that the next round trip of J gives Jnext"""
+    if has_suffixed_title(J):
+        return "C06-K22"
+    # K24: the difference lies in a schema object one of whose allOf members is {} (that member is dropped by the next parse)
+    for node in diff_chain(J, Jnext)[-2:]:
+        if isinstance(node, dict) and isinstance(node.get("allOf"), list) and any(isinstance(m, dict) and not m for m in node["allOf"]):
+            return "C06-K24"
+    return None
 
 
 def has_suffixed_title(j):
@@ -176,7 +221,7 @@ def run(tier, seed, replay=None):
             continue
         d = first_diff(J1, J2)
         if d:
-            res.violation(dict(payload, kind="oracle", first_trip=J1, second_trip=J2, finding="C06-K22" if has_suffixed_title(J1) else None,
+            res.violation(dict(payload, kind="oracle", first_trip=J1, second_trip=J2, finding=trip_finding(J1, J2),
                                what="serialize(parse(.)) is not idempotent: the second round trip differs at %s" % d))
             continue
         stats["idempotent"] += 1
@@ -185,7 +230,7 @@ def run(tier, seed, replay=None):
             J3, _ = pipeline(copy.deepcopy(J2), "c%d" % i)
             d3 = first_diff(J2, J3)
             if d3:
-                res.violation(dict(payload, kind="oracle", finding="C06-K22" if has_suffixed_title(J2) else None, what="the third round trip differs at %s" % d3))
+                res.violation(dict(payload, kind="oracle", finding=trip_finding(J2, J3), what="the third round trip differs at %s" % d3))
                 continue
         except BaseException as exc:  # noqa
             res.violation(dict(payload, kind="oracle", what="the twice-serialized document cannot be parsed: %s" % classify(exc)))
